@@ -258,8 +258,8 @@ def oracles(ctx, table, events, obs, backend="memory"):
                      "served": ob["bytes"].decode("latin-1"), "expected": content[armed:].decode("latin-1"), "armed_offset": armed},
                 )
                 return
-        if v == "rest" and codes == ["350"] and arg.isascii() and arg.isdigit():
-            armed = int(arg)
+        if v == "rest" and codes == ["350"] and arg.rstrip().isascii() and arg.rstrip().isdigit() and len(arg.rstrip()) <= 4300:
+            armed = int(arg.rstrip())  # (parse_command strips trailing white space before the handler sees the argument: F22)
         elif v in SUPPORTED:
             armed = 0
         # an UNSUPPORTED verb (502) is not a command of the session: it leaves a pending offset pending (the existing
